@@ -295,7 +295,7 @@ def check_C08(tier):
 
 
 def check_C10(tier):
-    return run_hist_prop('C10', tier, 10, 500, 30000, families=[gen.scen_nested_failure, gen.scen_swap, gen.scen_stale_dir],
+    return run_hist_prop('C10', tier, 10, 500, 30000, families=[gen.scen_nested_failure, gen.scen_swap, gen.scen_stale_dir, gen.scen_longname],
                          per_family=(80, 2000), p_fail=0.1)
 
 
@@ -595,7 +595,7 @@ def fault_plan(fired):
 
 def c14_jobs(tier, ds):
     """cases with one injected OSError at the k-th mutating library call of one committed build"""
-    base = gen.gen_scenario_cases(core.seed() * 31 + 14, budget(tier, 12, 300), ds)
+    base = gen.gen_scenario_cases(core.seed() * 31 + 14, budget(tier, 12, 300), ds, gen.SCENARIOS + [gen.scen_longname])
     base += random_cases(tier, 150, 6000, 14, dirsize=ds, p_fail=0.0, p_clean=0.0, min_builds=2, max_builds=4)
     probe = []
     for c in base:
